@@ -11,12 +11,14 @@ N == Len(T.ev)
 Tag(X) == {<<c, l>> : c \in X}
 
 Excl == {<<p[1] + 1, p[2] + 1>> : p \in CSeqSet(S.excl)}
-Prob(e) == [src |-> S.src, tgt |-> S.tgt, so |-> e.so, to |-> e.to, cap |-> e.cap, mcp |-> S.mcp]
+Logged(e) == [src |-> S.src, tgt |-> S.tgt, so |-> e.so, to |-> e.to, cap |-> e.cap, mcp |-> S.mcp]
+\* the reference problem: the logged per-pair limits, raised to the documented default where they are below it
+Prob(e) == [Logged(e) EXCEPT !.cap = RefCap(Logged(e), Excl)]
 
 PatClauses(e) ==
     IF e.err # "" THEN {"C09.enumeration_raised"}
     ELSE LET P == Prob(e) IN
-         IF ~CapsOK(P, Excl) THEN {"C09.caps_inconsistent"}
+         IF ~CapsOK(Logged(e), Excl) THEN {"C09.caps_inconsistent"}
          ELSE LET V == ValidMatrices(P)
                   A == CSeqSet(e.agg)
                   I == CSeqSet(e.iter)
@@ -38,7 +40,7 @@ Step == /\ l <= N
         /\ LET e == T.ev[l] IN
            CASE e.e = "Settings" -> fails' = fails \cup Tag(IF e.err # "" THEN {"C09.settings_rejected"} ELSE {}) /\ UNCHANGED counts
              [] e.e = "Pat" -> /\ fails' = fails \cup Tag(PatClauses(e))
-                               /\ counts' = IF e.err = "" /\ CapsOK(Prob(e), Excl) THEN Append(counts, Cardinality(ValidMatrices(Prob(e)))) ELSE counts
+                               /\ counts' = IF e.err = "" /\ CapsOK(Logged(e), Excl) THEN Append(counts, Cardinality(ValidMatrices(Prob(e)))) ELSE counts
              [] e.e = "Count" -> fails' = fails \cup Tag(CountClauses(e)) /\ UNCHANGED counts
              [] OTHER -> fails' = fails \cup Tag({"machinery.unknown_event"}) /\ UNCHANGED counts
         /\ l' = l + 1 /\ UNCHANGED tid
